@@ -326,6 +326,13 @@ def gen_configs(rng, m):
     elif r < 0.5:
         cfgs.append({"pm": "std", "uniq": False, "path": "findpm",
                      "prio": "default" if rng.random() < 0.7 else rng.choice(PRIOS[1:])})
+    # make_ids_unique on its own, on a graph edited after the conversion (extra edges, another top)
+    if rng.random() < 0.3 and n >= 1:
+        extra = [[rng.randrange(n), rng.choice(["MOD", "ARG1", "BV", "X-EXTRA"]), rng.randrange(n)]
+                 for _ in range(rng.choice([0, 1, 1, 2, 3]))]
+        cfgs.append({"pm": rng.choice(["std", "off"]), "uniq": True, "path": "mkuniq", "extra": extra,
+                     "top": rng.choice(["keep", "keep", None, rng.randrange(n)]),
+                     "prio": rng.choice(["default", "default", "const"])})
     if rng.random() < 0.25:
         rng.shuffle(cfgs)         # e.g. a raising callable BEFORE the ordinary calls on the same object
     return cfgs
@@ -344,6 +351,8 @@ def pm_kind(cfg):
     """std: predicate-modifier edges may appear; off: none; user: the edges the callable returned; raise"""
     if cfg.get("path") in ("staged", "findpm"):
         return "std"
+    if cfg.get("path") == "mkuniq":
+        return "mkuniq"
     pm = cfg["pm"]
     if pm in ("std", "wrap", "fn:std"):
         return "std"
@@ -500,6 +509,16 @@ def run_live(m, cfg):
                     e[id_].edges.update(deps)
                 if cfg["uniq"]:
                     eds.make_ids_unique(e, m)
+            elif path == "mkuniq":
+                # make_ids_unique on its own, on a graph edited after the conversion
+                e = eds.from_mrs(m, predicate_modifiers=make_pm(cfg["pm"], calls), unique_ids=False,
+                                 representative_priority=prio)
+                for s_, role, t in cfg["extra"]:
+                    e.nodes[s_].edges[role] = e.nodes[t].id
+                if cfg.get("top", "keep") != "keep":
+                    e.top = None if cfg["top"] is None else e.nodes[cfg["top"]].id
+                calls.append({"before": {"top": e.top, "nodes": [[n.id, list(n.edges.items())] for n in e.nodes]}})
+                eds.make_ids_unique(e, m)
             elif path == "findpm":
                 e0 = eds.from_mrs(m, predicate_modifiers=False, unique_ids=False, representative_priority=prio)
                 a1 = eds.find_predicate_modifiers(e0, m)
@@ -799,7 +818,7 @@ def c03_expressible(e):
 
 class C05(Check):
     pid = "C05"
-    props_modules = ["Verif.C05.Props", "Verif.C05.PropsApi"]
+    props_modules = ["Verif.C05.Props", "Verif.C05.PropsApi", "Verif.C05.PropsKey"]
     quick_cases = 900
     thorough_cases = 9000
     rule = ("Each case is one MRS (optionally with structure-level lnk / surface / identifier, 40%) put through a list of "
@@ -809,7 +828,8 @@ class C05(Check):
             "last to the first of the representatives they are handed, or raising) x unique_ids x "
             "representative_priority (not passed / None / prefer-last / all-equal / by predicate length) x call path "
             "(from_mrs / the staged use from_mrs(False, False) + find_predicate_modifiers(e, m) + e[id].edges.update + "
-            "make_ids_unique / find_predicate_modifiers on its own, with and without representatives). Every case has "
+            "make_ids_unique / find_predicate_modifiers on its own, with and without representatives / make_ids_unique on its own on a graph "
+            "edited after from_mrs(…, unique_ids=False): extra edges between nodes, top kept, removed or moved; 30%). Every case has "
             "the four plain configurations predicate_modifiers in {True, False} x unique_ids in {True, False}; about "
             "75% one more predicate_modifiers value, 50% one configuration with a user priority, 50% one staged or "
             "stand-alone call; 25% have their configurations shuffled. First, identical in every run: a BATTERY of 9 "
@@ -983,6 +1003,17 @@ class C05(Check):
                 {"lnk": None, "surface": "", "identifier": ""}]
         k = 0
         for m in ms:
+            n = len(m["rels"])
+            quant = [i for i, ep in enumerate(m["rels"]) if any(r == "RSTR" for r, _ in ep["args"])]
+            # make_ids_unique on its own: every node gets an extra edge onto every quantifier (the nodes that
+            # ARE renamed) and onto its neighbour; the top is moved onto a quantifier / removed / kept
+            onto_q = [[i, "X-Q%d" % k, q] for i in range(n) for k, q in enumerate(quant)]
+            ring = [[i, "X-NEXT", (i + 1) % n] for i in range(n)]
+            mk = [{"pm": pm, "uniq": True, "path": "mkuniq", "extra": ex, "top": top, "prio": prio}
+                  for pm in ("std", "off") for ex, top in ((onto_q, quant[0] if quant else "keep"), (ring, None),
+                                                           ([], "keep"))
+                  for prio in ("default", "const")]
+            yield {"src": "battery", "m": m, "configs": mk}
             for c in range(0, len(cfgs), per):
                 case = {"src": "battery", "m": m, "configs": copy.deepcopy(cfgs[c:c + per])}
                 if docs[k % 3] is not None:
@@ -1014,7 +1045,8 @@ class C05(Check):
             ed = gen_edit(rng, m)
             if ed is not None:
                 case["edit"] = ed
-                case["configs"] = [c for c in case["configs"] if not isinstance(c["pm"], dict)]
+                case["configs"] = [c for c in case["configs"] if not isinstance(c["pm"], dict)
+                                   and not (ed["op"] == "del_ep" and c.get("path") == "mkuniq")]
         return case
 
     def random_cases(self, rng, n):
@@ -1085,8 +1117,12 @@ class C05(Check):
                     else:
                         addl.append([V(ids[s]), [[role, V(ids[t])]]])
                 mp = {"custom": addl}
-            cfgs.append({"pm": mp, "uniq": cfg["uniq"], "prio": cfg.get("prio") or "default",
-                         "path": cfg.get("path", "direct")})
+            mc = {"pm": mp, "uniq": cfg["uniq"], "prio": cfg.get("prio") or "default",
+                  "path": cfg.get("path", "direct")}
+            if mc["path"] == "mkuniq":
+                mc["extra"] = cfg["extra"]
+                mc["top"] = cfg.get("top", "keep")
+            cfgs.append(mc)
         req = {"op": "from_mrs", "m": case["m"], "configs": cfgs}
         if case.get("doc") is not None:
             req["doc"] = case["doc"]
@@ -1278,7 +1314,7 @@ class C05(Check):
                                      [[nd.id, r, t] for nd in b[0].nodes for r, t in nd.edges.items()]):
                     fail("user-supplied predicate_modifiers function did not receive the graph of the conversion "
                          "without predicate modifiers")
-        elif calls:
+        elif calls and path != "mkuniq":
             fail("harness: unexpected call record")
         if kind == "raise":
             return fails          # what a raising callable leads to is compared with the model only
@@ -1289,6 +1325,35 @@ class C05(Check):
         if ws:
             fail("conversion of a well-formed MRS warned", ws)
         if path == "findpm":
+            return fails
+        if path == "mkuniq":
+            # "LKB-style identifier reassignment": ids pairwise distinct; the top, every node id and EVERY EDGE
+            # TARGET renamed by one and the same map; nothing else changed (naive, by position)
+            before = calls[-1]["before"]
+            old_ids = [x[0] for x in before["nodes"]]
+            new_ids = [nd.id for nd in e.nodes]
+            if len(new_ids) != len(old_ids):
+                fail("make_ids_unique changed the number of nodes")
+                return fails
+            if len(set(new_ids)) != len(new_ids):
+                fail("node identifiers are not unique", new_ids)
+            ren = dict(zip(old_ids, new_ids))
+            for (oid, oedges), nd in zip(before["nodes"], e.nodes):
+                want = [(r, ren.get(t)) for r, t in oedges]
+                if list(nd.edges.items()) != want:
+                    fail("make_ids_unique did not rename an edge target consistently with the node ids",
+                         [oid, oedges, list(nd.edges.items())])
+                    break
+            if e.top != (None if before["top"] is None else ren.get(before["top"])):
+                fail("make_ids_unique did not rename the top consistently with the node ids", [before["top"], e.top])
+            if any(t not in new_ids for nd in e.nodes for t in nd.edges.values()):
+                fail("an edge does not end at a node")
+            for ep, nd in zip(eps, e.nodes):
+                want_id = ep.args.get("ARG0") if "RSTR" not in ep.args else None
+                if want_id is not None and nd.id != want_id:
+                    fail("make_ids_unique: a non-quantifier node is not named by its intrinsic variable", nd.id)
+                if want_id is None and not nd.id.startswith("_"):
+                    fail("make_ids_unique: a quantifier node did not get an LKB-style identifier", nd.id)
             return fails
         # -- shape: one node per predication, in order, with its data
         nodes = list(e.nodes)
@@ -1513,6 +1578,9 @@ class C05(Check):
             path = cfg.get("path", "direct")
             inc("path:" + path)
             inc("prio:" + (cfg.get("prio") or "not passed"))
+            if path == "mkuniq":
+                inc("mkuniq:extra=%d,top=%s" % (len(cfg["extra"]), "keep" if cfg.get("top", "keep") == "keep" else
+                                                  ("none" if cfg["top"] is None else "moved")))
             if path != "direct":
                 if "err" in r:
                     inc("err:" + r["err"] + (":in-claim" if claim else ""))
